@@ -43,7 +43,10 @@ fail.  Two observations per world, each on a fresh source and solar system:
   incremental   the world is built with the effect stopped (local: run mode force_stop) / with the projector not
                 targeting anything (projected), every item is read (all 100, now cached), then the effect is started
                 (run mode full_compliance) / the target is set, and every item is read again.
-A row is (world, [target item,] modifier, ids modified from scratch, ids modified incrementally).
+A row is (world, [target item,] modifier, valid, ids modified from scratch, ids modified incrementally); `valid` is
+what the library's own validation says about the modifier (`DogmaModifier._valid`, the test `ModBuilder` applies before
+it emits a modifier): the table deliberately contains modifiers the library rejects (a group / skill filter without
+argument, an en-masse filter with domain other, owner_skillrq with a domain other than character).
 
 Axes (complete product unless a restriction is stated).  Item ids are creation order; the configuration, the
 types and the modifier are read back from the live objects after the world was built.
@@ -300,6 +303,15 @@ def mk_modifier(flt, dom, extra):
                          aggregate_mode=ModAggregateMode.stack, affector_attr_id=SRC)
 
 
+def mod_valid(m):
+    """What the library's own validation (`DogmaModifier._valid`, the test the modifier builder applies before it
+    emits a modifier) says about the modifier."""
+    v = m._valid
+    if v is not True and v is not False:
+        raise AssertionError('_valid returned %r' % (v,))
+    return v
+
+
 def mod_tuple(m):
     """The Lean `Modifier` fields, read from the real modifier object."""
     x = m.affectee_filter_extra_arg
@@ -390,7 +402,8 @@ def build_projected(kp, tgt, modifier, held=False):
 def observe(kind, k, w, spec):
     """Both observations of one world: kind 'L' (k affector class, w world) / 'P' (k projector class, w target index),
     modifier spec (filter, domain, extra).  Returns None when the world does not exist, else
-    (snapshot, affector id, target id | None, modifier tuple, modified ids from scratch, modified ids incremental).
+    (snapshot, affector id, target id | None, modifier tuple, valid, modified ids from scratch, modified ids
+    incremental); `valid` is the verdict of the library's own modifier validation.
 
     from scratch: the world is built complete, then every item's attribute is read.
     incremental:  the world is built with the effect under test stopped (local; run mode force_stop) / with the
@@ -414,15 +427,15 @@ def observe(kind, k, w, spec):
             if pre:
                 raise AssertionError('items %r modified before the effect runs / is applied' % pre)
             b.release()
-        out.append((b.snapshot(), a._aid, None if t is None else t._aid, mod_tuple(m), b.modified()))
-    if out[0][:4] != out[1][:4]:
+        out.append((b.snapshot(), a._aid, None if t is None else t._aid, mod_tuple(m), mod_valid(m), b.modified()))
+    if out[0][:5] != out[1][:5]:
         raise AssertionError('the held world differs from the world built at once')
-    return out[0] + (out[1][4],)
+    return out[0] + (out[1][5],)
 
 
 def tables():
     """(local, projected): lists of (affector class, world key, snapshot, affector id, target id | None,
-    [(modifier tuple, modified ids from scratch, modified ids incremental)])."""
+    [(modifier tuple, valid, modified ids from scratch, modified ids incremental)])."""
     global LAST
     C.load_repo()
     res = []
@@ -441,7 +454,7 @@ def tables():
                         head = o[:3]
                     elif o[:3] != head:
                         raise AssertionError('the world depends on the modifier')
-                    rows.append((o[3], o[4], o[5]))
+                    rows.append((o[3], o[4], o[5], o[6]))
                 if head is not None:
                     table.append((k, w) + head + (rows,))
         res.append(table)
@@ -484,7 +497,7 @@ def block_text(kind, key, entries, header):
     """One generated module: the item types, the worlds of one affector / projector class and their rows."""
     out = []
     names = []
-    ncases = npos = 0
+    ncases = npos = nvalid = 0
     tprefix = 'ty%s%02d_' % (kind, key)
     types = {}
     for e in entries:
@@ -500,18 +513,19 @@ def block_text(kind, key, entries, header):
         tgt = '' if tid is None else '%d, ' % tid
         out.append('def %s : List %s := [\n  %s]\n' % (
             rn, 'LocalRow' if tid is None else 'ProjRow',
-            ',\n  '.join('⟨%s, %s%s, %s, %s⟩' % (wn, tgt, lean_mod(m), _ints(ids), _ints(inc))
-                          for m, ids, inc in rows)))
+            ',\n  '.join('⟨%s, %s%s, %s, %s, %s⟩' % (wn, tgt, lean_mod(m), 'true' if ok else 'false', _ints(ids),
+                                                      _ints(inc)) for m, ok, ids, inc in rows)))
         ncases += len(rows) * len(snap[1])
-        npos += sum(len(ids) for _, ids, _ in rows)
-    return header + '\n'.join(out), names, ncases, npos
+        npos += sum(len(ids) for _, _, ids, _ in rows)
+        nvalid += sum(len(snap[1]) for _, ok, _, _ in rows if ok)
+    return header + '\n'.join(out), names, ncases, npos, nvalid
 
 
 def generate():
     local, proj = tables()
     files = {}
     index = []
-    totals = {'L': [0, 0], 'P': [0, 0]}
+    totals = {'L': [0, 0, 0], 'P': [0, 0, 0]}
     blocks = {'L': [], 'P': []}
     for kind, table in (('L', local), ('P', proj)):
         for k in sorted({e[0] for e in table}):
@@ -519,20 +533,22 @@ def generate():
             mod = 'AffectsTable%s%02d' % (kind, k)
             head = ('import EosModel.AffectsSpec\n/- GENERATED by tools/gen/affects_table.py by running the real '
                     'calculator on designed worlds. Do not edit.\n   %s table, %s class %s; axes: see '
-                    'EosGen/AffectsTable.lean. A row is (world, %smodifier, ids modified from scratch, ids modified '
-                    'incrementally). -/\nnamespace EosGen.AffectsTable\nopen Eos.World Eos.AffectsSpec\n\n' % (
+                    'EosGen/AffectsTable.lean. A row is (world, %smodifier, valid (the library\'s `_valid`), ids modified '
+                    'from scratch, ids modified incrementally). -/\nnamespace EosGen.AffectsTable\nopen Eos.World Eos.AffectsSpec\n\n' % (
                         'local' if kind == 'L' else 'projected', 'affector' if kind == 'L' else 'projector',
                         KINDS[k], '' if kind == 'L' else 'target item, '))
-            text, names, nc, npos = block_text(kind, k, entries, head)
+            text, names, nc, npos, nv = block_text(kind, k, entries, head)
             bn = 'block%s%02d' % (kind, k)
             text += '\ndef %s : List %s := %s\n' % (bn, 'LocalRow' if kind == 'L' else 'ProjRow', ' ++ '.join(names))
-            text += 'def %sCases : Nat := %d\ndef %sModified : Nat := %d\n' % (bn, nc, bn, npos)
+            text += 'def %sCases : Nat := %d\ndef %sModified : Nat := %d\ndef %sValid : Nat := %d\n' % (
+                bn, nc, bn, npos, bn, nv)
             text += '\nend EosGen.AffectsTable\n'
             files['EosGen/%s.lean' % mod] = text
             index.append(mod)
             blocks[kind].append(bn)
             totals[kind][0] += nc
             totals[kind][1] += npos
+            totals[kind][2] += nv
     files['EosGen/AffectsTable.lean'] = '''%s
 /- GENERATED by tools/gen/affects_table.py by running eos/calculator (affection.py, service.py) and the item
    classes of eos/item on designed worlds built through the public API. Do not edit.
@@ -548,18 +564,21 @@ def localBlocks : List (List LocalRow) := [%s]
 def projectedBlocks : List (List ProjRow) := [%s]
 def localCases : List LocalCase := localBlocks.flatMap localCasesOf
 def projectedCases : List ProjCase := projectedBlocks.flatMap projCasesOf
-/-- Number of (world, modifier, item) observations made by the generator, and how many were "modified". -/
+/-- Number of (world, modifier, item) observations made by the generator, how many were "modified" (from
+scratch), and how many belong to a modifier the library's validation accepts. -/
 def localCaseCount : Nat := %d
 def localModifiedCount : Nat := %d
+def localValidCount : Nat := %d
 def projectedCaseCount : Nat := %d
 def projectedModifiedCount : Nat := %d
+def projectedValidCount : Nat := %d
 def localBlockCounts : List (Nat × Nat) := [%s]
 def projectedBlockCounts : List (Nat × Nat) := [%s]
 
 end EosGen.AffectsTable
 ''' % (''.join('import EosGen.%s\n' % m for m in index), HEADER,
        ', '.join(blocks['L']), ', '.join(blocks['P']),
-       totals['L'][0], totals['L'][1], totals['P'][0], totals['P'][1],
+       totals['L'][0], totals['L'][1], totals['L'][2], totals['P'][0], totals['P'][1], totals['P'][2],
        ', '.join('(%sCases, %sModified)' % (b, b) for b in blocks['L']),
        ', '.join('(%sCases, %sModified)' % (b, b) for b in blocks['P']))
     return files
